@@ -49,8 +49,8 @@ from . import codec_targets as ct
 HERE = pathlib.Path(__file__).resolve().parent
 CORPUS = common.VERIF / "corpus" / "C04"
 SAN_COMMON = ["-fsanitize=address,undefined", "-fno-sanitize-recover=all", "-fno-omit-frame-pointer"]
-SAN = ["-O0"] + SAN_COMMON          # quick tier: unoptimised builds compile four times faster; set to -O1 -g in the thorough tier
-SAN_OPT = ["-O1", "-g"] + SAN_COMMON
+SAN = ["-O0"] + SAN_COMMON          # unoptimised builds compile four times faster and keep every access the source makes
+SAN_OPT = ["-O1", "-g"] + SAN_COMMON  # the additional targets of the thorough tier
 SAN_ENV = {"ASAN_OPTIONS": "detect_leaks=1:allocator_may_return_null=1:abort_on_error=0:exitcode=66",
            "UBSAN_OPTIONS": "print_stacktrace=0:halt_on_error=1:exitcode=67",
            "LSAN_OPTIONS": "exitcode=68"}
@@ -145,6 +145,55 @@ def compile_cmd(cmd, timeout=1500):
 # codec targets with the C04 requests
 # ------------------------------------------------------------------------------------------------------------
 
+def c_mask_source(ns):
+    """
+    Per composite a function `c04_mask_<T>(mask, base)` that marks every byte of the C object that belongs to a member
+    (derived from the PyDSDL model with offsetof/sizeof, not from the templates).  What stays unmarked is padding: no
+    deserialization may modify it (checked by the `dep`/`de2` requests on unoptimised builds).
+    """
+    import pydsdl
+    out = ["#include <stddef.h>"]
+    for m in ct._composites_in_order(ns):
+        n = ct.c_name(m)
+        body = [f"static void c04_mask_{n}(uint8_t* m, size_t base)", "{", "    (void) m; (void) base;"]
+
+        def whole(member):
+            return f"    memset(m + base + offsetof({n}, {member}), 1, sizeof((({n}*) 0)->{member}));"
+        for f in m.fields:
+            t = f.data_type
+            if isinstance(t, pydsdl.VoidType):
+                continue
+            name = f.name
+            if isinstance(t, pydsdl.PrimitiveType):
+                body.append(whole(name))
+            elif isinstance(t, pydsdl.CompositeType):
+                body.append(f"    c04_mask_{ct.c_name(t)}(m, base + offsetof({n}, {name}));")
+            elif isinstance(t, pydsdl.FixedLengthArrayType):
+                et = t.element_type
+                if isinstance(et, pydsdl.BooleanType):
+                    body.append(whole(name + "_bitpacked_"))
+                elif isinstance(et, pydsdl.PrimitiveType):
+                    body.append(whole(name))
+                else:
+                    body.append(f"    for (size_t i = 0; i < {t.capacity}U; ++i) {{ c04_mask_{ct.c_name(et)}(m, base + offsetof({n}, {name}) + i * sizeof({ct.c_name(et)})); }}")
+            elif isinstance(t, pydsdl.VariableLengthArrayType):
+                et = t.element_type
+                body.append(whole(name + ".count"))
+                if isinstance(et, pydsdl.BooleanType):
+                    body.append(whole(name + ".bitpacked"))
+                elif isinstance(et, pydsdl.PrimitiveType):
+                    body.append(whole(name + ".elements"))
+                else:
+                    body.append(f"    for (size_t i = 0; i < {t.capacity}U; ++i) {{ c04_mask_{ct.c_name(et)}(m, base + offsetof({n}, {name}.elements) + i * sizeof({ct.c_name(et)})); }}")
+            else:
+                raise ValueError(t)
+        if isinstance(m, pydsdl.UnionType):
+            body.append(whole("_tag_"))
+        body += ["}", ""]
+        out += body
+    return "\n".join(out)
+
+
 class C04CTarget(ct.CTarget):
     def generate(self):
         if not super().generate():
@@ -156,7 +205,8 @@ class C04CTarget(ct.CTarget):
             return False
         src = src.replace("static int handle_##IDX(", "static int base_handle_##IDX(")
         first = re.search(r"^DEFINE_HANDLER\(\d+, \w+\)$", src, re.M).start()
-        src = src[:first] + '#include "c04_handler.h"\n' + src[first:]
+        guard = "#define C04_GUARD_PADDING 1\n" if "-O0" in self.cflags else ""
+        src = src[:first] + c_mask_source(self.ns) + "\n" + guard + '#include "c04_handler.h"\n' + src[first:]
         src = re.sub(r"^DEFINE_HANDLER\((\d+), (\w+)\)$", r"DEFINE_HANDLER(\1, \2)\nC04_DEFINE_HANDLER(\1, \2)", src, flags=re.M)
         p.write_text(src)
         return True
@@ -601,9 +651,9 @@ def make_targets(ns, base, quick, tag):
         specs.append(C04CppTarget(ns, base / std.replace("+", "p"), std=std, asserts=False, cxx="g++", cxxflags=SAN,
                                   parts=6 if quick else 8, tag=f"cpp/{std}"))
     if not quick:
-        specs.append(C04CTarget(ns, base / "c_little", endianness="little", asserts=False, cc="clang", cflags=SAN, tag="c/little/clang"))
-        specs.append(C04CTarget(ns, base / "c_big", endianness="big", asserts=False, cc="gcc", cflags=SAN, tag="c/big"))
-        specs.append(C04CppTarget(ns, base / "cpp14clang", std="c++14", asserts=True, cxx="clang++", cxxflags=SAN, parts=8, tag="cpp/c++14/clang+asserts"))
+        specs.append(C04CTarget(ns, base / "c_little", endianness="little", asserts=False, cc="clang", cflags=SAN_OPT, tag="c/little/clang-O1"))
+        specs.append(C04CTarget(ns, base / "c_big", endianness="big", asserts=False, cc="gcc", cflags=SAN_OPT, tag="c/big-O1"))
+        specs.append(C04CppTarget(ns, base / "cpp14clang", std="c++14", asserts=True, cxx="clang++", cxxflags=SAN_OPT, parts=8, tag="cpp/c++14/clang+asserts-O1"))
     return specs
 
 
@@ -732,6 +782,13 @@ def codec_stream(ctx, drivers, ns, label, specs, n_values, n_invalid, n_strings)
                 fail({"kind": a.split(":", 1)[1], "target": t.name, "construct": "serialize" if r["kind"] == "ser" else "deserialize"},
                      f"{t.name}: the generated code of {gt.full_name} died under the sanitizers on `{r['req'][:120]}`", replay_of(t, r, {"observed": a}))
                 ctx.count("codec_crash")
+                if m is not None:
+                    ctx.disagree("codec/" + t.name, {"type": gt.tstr, "request": r["req"]}, m, a)
+                continue
+            if a.startswith("guard:"):
+                fail({"kind": "object-overflow", "target": t.name, "construct": "deserialize-padding-modified"},
+                     f"{t.name}: deserialization of {gt.full_name} modified bytes of the destination that belong to no member", replay_of(t, r, {"observed": a}))
+                ctx.count("codec_guard_violation")
                 if m is not None:
                     ctx.disagree("codec/" + t.name, {"type": gt.tstr, "request": r["req"]}, m, a)
                 continue
@@ -1008,19 +1065,16 @@ def run(ctx: common.Ctx):
                        "buffer reads of the C deserializer saturate (support primitives: property C14)",
                        "PyDSDL's bit length sets (sizes, alignment claims) are right; alignment claims are asserted at run time in the C build"]
     ctx.exhaustive = False
-    global SAN
-    if not ctx.quick:
-        SAN = SAN_OPT
     # ---- phase 1: every rng-dependent choice, in a fixed order, in this thread --------------------------------
     t0 = time.time()
     vstate = variant_prepare(ctx, tables) if tables is not None else None
     ostate = override_prepare(ctx)
     prof = {"p_service": 0.05, "max_type_bits": 6000, "p_big_capacity": 0.0, "p_constants": 0.0}
-    nrounds = 1 if ctx.quick else 4
+    nrounds = 1 if ctx.quick else 3
     namespaces = []
     for rnd in range(nrounds):
         root_name = f"vns{rnd}"
-        ns = dsdlgen.generate(ctx.rng, ctx.scratch / f"gen_ns{rnd}", n_types=(12 if ctx.quick else 60), root_name=root_name, profile=prof)
+        ns = dsdlgen.generate(ctx.rng, ctx.scratch / f"gen_ns{rnd}", n_types=(12 if ctx.quick else 40), root_name=root_name, profile=prof)
         ctx.count("generated_types", len(ns.types))
         ctx.count("dropped_definitions", len(ns.dropped))
         if rnd == 0:
